@@ -20,6 +20,8 @@ pub fn rank(tok: &str) -> Option<i64> {
         "m1" => Some(i64::MIN + 1),
         "M1" => Some(i64::MAX - 1),
         "M" => Some(i64::MAX),
+        "ni" => Some(i64::MIN),
+        "pi" => Some(i64::MAX),
         "_" => None,
         s => s.parse::<i64>().ok().filter(|v| v.abs() < 1_000_000),
     }
@@ -68,6 +70,8 @@ impl Elem for f64 {
             "m1" => -f64::from_bits(f64::MAX.to_bits() - 1),
             "M1" => f64::from_bits(f64::MAX.to_bits() - 1),
             "M" => f64::MAX,
+            "ni" => f64::NEG_INFINITY,
+            "pi" => f64::INFINITY,
             "_" => f64::NAN,
             s => s.parse::<i64>().expect("bad integer token") as f64,
         }
@@ -326,6 +330,18 @@ pub fn generate(tier: &str, rng: &mut Rng) -> (Vec<String>, bool) {
         }
     }
     // degenerate value series
+    // the infinities of the float type are non-null values: labelled under open outer bounds,
+    // outside every bin otherwise
+    for bins in ["[]", "0", "-1,1", "m,0", "0,M", "m,M", "m,-1,0,1,M"] {
+        let nb = if bins == "[]" { 0 } else { bins.split(',').count() };
+        for right in [1, 0] {
+            for ab in [1, 0] {
+                let nl = if ab == 1 { nb + 1 } else { nb.saturating_sub(1) };
+                out.push(format!("vcut t=f64 lt=f64 xs=ni,m,0,_,M,pi bins={} labels={} right={} ab={}", bins, labels_of(nl), right, ab));
+                out.push(format!("vcut t=f64 lt=oi32 xs=pi,ni bins={} labels={} right={} ab={}", bins, labels_of(nl), right, ab));
+            }
+        }
+    }
     for xs in ["[]", "_", "_,_"] {
         for (bins, nl) in [("[]", 0), ("[]", 1), ("0", 0), ("0", 2), ("0,1", 1), ("0,1", 3)] {
             for right in [1, 0] {
